@@ -428,7 +428,7 @@ pub struct Case {
     pair_cbs: Vec<String>,
 }
 
-const LONG_DEFAULT_MS: u64 = 30_000;
+const LONG_DEFAULT_MS: u64 = 12_000;
 /// how long an actor may take to reach its next scheduling point (VERIF_LONG_MS overrides, for tests of the harness itself)
 fn long() -> Duration {
     Duration::from_millis(std::env::var("VERIF_LONG_MS").ok().and_then(|s| s.parse().ok()).unwrap_or(LONG_DEFAULT_MS))
